@@ -136,6 +136,85 @@ func registerStubs(p *Program) {
 		}
 		return n
 	})
+	// substring search with a concrete-length pattern: first match, forking per position
+	indexOf := func(ex *Exec, hay, pat []*Term) Value {
+		if len(pat) == 0 {
+			return BV(0, 64)
+		}
+		for i := 0; i+len(pat) <= len(hay); i++ {
+			m := True
+			for k := range pat {
+				m = And(m, Eq(hay[i+k], pat[k]))
+			}
+			if ex.Branch(m) {
+				return BV(uint64(i), 64)
+			}
+		}
+		return BV(^uint64(0), 64)
+	}
+	p.stub("internal/bytealg.IndexString", func(ex *Exec, a []Value) Value {
+		return indexOf(ex, a[0].(*StrVal).B, a[1].(*StrVal).B)
+	})
+	p.stub("internal/bytealg.Index", func(ex *Exec, a []Value) Value {
+		return indexOf(ex, ex.sliceBytes(a[0].(SliceVal)), ex.sliceBytes(a[1].(SliceVal)))
+	})
+	p.stub("strings.Index", func(ex *Exec, a []Value) Value {
+		return indexOf(ex, a[0].(*StrVal).B, a[1].(*StrVal).B)
+	})
+	p.stub("strings.Contains", func(ex *Exec, a []Value) Value {
+		r := indexOf(ex, a[0].(*StrVal).B, a[1].(*StrVal).B).(*Term)
+		return Bool(r.SInt() >= 0)
+	})
+	p.stub("bytes.Index", func(ex *Exec, a []Value) Value {
+		return indexOf(ex, ex.sliceBytes(a[0].(SliceVal)), ex.sliceBytes(a[1].(SliceVal)))
+	})
+	p.stub("bytes.Contains", func(ex *Exec, a []Value) Value {
+		r := indexOf(ex, ex.sliceBytes(a[0].(SliceVal)), ex.sliceBytes(a[1].(SliceVal))).(*Term)
+		return Bool(r.SInt() >= 0)
+	})
+	// io.Copy / io.CopyN: read from src in 512-byte pieces and write to dst
+	ioCopy := func(ex *Exec, dst, src IfaceVal, limit int64) Value {
+		var total int64
+		var errv Value = IfaceVal{}
+		for iter := 0; iter < 4096; iter++ {
+			n := int64(512)
+			if limit >= 0 && limit-total < n {
+				n = limit - total
+			}
+			if n == 0 {
+				break
+			}
+			buf := ex.newSlice(types.Typ[types.Uint8], nil, int(n))
+			buf.Len = int(n)
+			res := ex.InvokeMethod(src, "Read", buf).(Tuple)
+			got := ex.Concretize(res[0].(*Term))
+			if got > 0 {
+				part := SliceVal{Arr: buf.Arr, Off: 0, Len: int(got), Cap: int(got)}
+				if dst.T != nil && dst.T.String() != "io.discard" {
+					wres := ex.InvokeMethod(dst, "Write", part).(Tuple)
+					if e := wres[1].(IfaceVal); e.T != nil {
+						errv = e
+						total += got
+						break
+					}
+				}
+				total += got
+			}
+			if e := res[1].(IfaceVal); e.T != nil {
+				if !ex.ErrorsIs(e, ex.load(Ptr{Obj: ex.P.globalByName("io.EOF")}).(IfaceVal)) {
+					errv = e
+				} else if limit >= 0 && total < limit {
+					errv = e // CopyN reports EOF when fewer than n bytes were available
+				}
+				break
+			}
+		}
+		return Tuple{BV(uint64(total), 64), errv}
+	}
+	p.stub("io.Copy", func(ex *Exec, a []Value) Value { return ioCopy(ex, a[0].(IfaceVal), a[1].(IfaceVal), -1) })
+	p.stub("io.CopyN", func(ex *Exec, a []Value) Value {
+		return ioCopy(ex, a[0].(IfaceVal), a[1].(IfaceVal), ex.Concretize(a[2].(*Term)))
+	})
 	p.stub("internal/bytealg.MakeNoZero", func(ex *Exec, a []Value) Value {
 		n := int(ex.Concretize(a[0].(*Term)))
 		s := ex.newSlice(types.Typ[types.Uint8], nil, n)
